@@ -114,7 +114,25 @@ func (x *Exec) panicIf(st *State, cond T, what string, pos token.Pos) {
 	if x.nopanic {
 		x.emit(st, "nopanic", x.oblName("nopanic@"+what), x.posStr(pos), Not(cond))
 	}
+	if cond.S == "true" {
+		panic(pathEnd{}) // this path always panics here: it ends
+	}
 	st.assume(Not(cond), "no panic: "+what)
+}
+
+// pathEnd is raised when the current path cannot continue (certain panic); it is caught at the nearest fork.
+type pathEnd struct{}
+
+func (x *Exec) tryPath(f func()) {
+	defer func() {
+		if r := recover(); r != nil {
+			if _, ok := r.(pathEnd); ok {
+				return
+			}
+			panic(r)
+		}
+	}()
+	f()
 }
 
 func (x *Exec) oblName(suffix string) string {
@@ -467,7 +485,9 @@ func (x *Exec) execInstrs(st *State, fr *Frame, b *ssa.BasicBlock, start int, k 
 			k(st, res)
 			return
 		case *ssa.Panic:
-			x.panicIf(st, TTrue, "panic", v.Pos())
+			if x.nopanic {
+				x.emit(st, "nopanic", x.oblName("nopanic@panic"), x.posStr(v.Pos()), TFalse)
+			}
 			return
 		case *ssa.Call:
 			idx := i
@@ -525,9 +545,9 @@ func (x *Exec) branch(st *State, fr *Frame, b *ssa.BasicBlock, c T, thenK, elseK
 	s2 := st.clone()
 	f2 := s2.top()
 	st.assume(c, "branch")
-	thenK(st, fr)
+	x.tryPath(func() { thenK(st, fr) })
 	s2.assume(Not(c), "branch")
-	elseK(s2, f2)
+	x.tryPath(func() { elseK(s2, f2) })
 }
 
 func (x *Exec) constVal(st *State, c *ssa.Const) Val {
